@@ -87,7 +87,7 @@ fn parse_cfg_string(s: &str) -> rt::Config {
 }
 
 const ASSUMPTIONS: &[&str] = &[
-    "memory model M1 (DESIGN §5): promise-free view semantics for relaxed/acquire/release (an under-approximation of C11: no load buffering, modification order = execution order); SeqCst accesses act as full barriers; releases are A-cumulative",
+    "memory models (DESIGN §5): promise-free view semantics for relaxed/acquire/release (an under-approximation of C11: no load buffering, modification order = execution order); every engine instance is explored under M2 (a SeqCst access = leading SeqCst fence + acquire/release access), the small instances with stale reads in their budget also under M3L (SeqCst accesses ordered per location only, SeqCst fences as in C11, a failing compare-exchange reads the newest value); the model of each exploration is in its bounds",
     "bounds: only executions within the stated numbers of preemptions, stale reads and spurious compare_exchange_weak failures, of the stated small harnesses, are covered",
     "the engine (arc_swap_verif_rt) is trusted; it is validated by the litmus / interleaving-count / replay self tests (vh selftest)",
     "the hooks (cfg arc_swap_verif) only redirect atomics, thread-local storage and the slot-count constant; the small build uses 2 fast slots per node instead of 8",
